@@ -8,7 +8,7 @@ import json
 from . import cases as casemod
 from . import replay, tlc
 
-MODULE_CONSTS = {"Trace_Obs": {"MCMode": "off"}}
+MODULE_CONSTS = {"Trace_Obs": {"MCMode": "off", "OptNames": "{}"}}
 ALL = replay.ALL_ACTS
 NO_INDEX = [a for a in ALL if a != "Index"]
 
@@ -41,6 +41,16 @@ CORPORA = {
     # slice / rechunk chains (what gets composed and pushed into sources)
     "d3-sr1": dict(acts=["Index", "Rechunk"], maxlen=3, preset="lean1", sim=False, lean=True, workers=4),
 }
+
+
+def standard_plans(tier, light=1):
+    """(corpus, chunk-grid variants per program, stride) of the program-corpus checks.  light > 1 thins the quick tier
+    for expensive observers."""
+    if tier == "quick":
+        return [("d1-1d", 1, 3 * light), ("d1-2d", 1, 8 * light), ("d2-push1", 1, 1), ("d2-push2", 1, 3 * light), ("d2-push3", 1, 3 * light),
+                ("d3-sr1", 1, 8), ("d2-lean1", 1, 4 * light), ("d2-lean2", 1, 12 * light), ("d2-lean3", 1, 16 * light)]
+    return [("d1-1d-wide", 6, 1), ("d1-2d", 6, 1), ("d2-lean1", 3, 1), ("d2-lean2", 2, 1), ("d2-lean3", 2, 1), ("d3-sr1", 2, 1),
+            ("d3-chain1", 1, 2)]
 
 
 def stride_sample(behs, stride, offset=0):
